@@ -36,15 +36,18 @@ Theorem C06_field_regex_exact : forall s, starts_underscore s = false ->
   re_fullmatch (re_body (nf_field_re facts)) s = ident_no_underscore s.
 Proof. exact (field_regex_exact facts C06_generated_facts_ok). Qed.
 
-(* FOR ALL strings: whatever the validators let through to exec is in the grammar, or is a string of the grammar
-   plus exactly one trailing newline ("$" also matches before a final newline); field names are not reserved names;
-   field types are whitelist entries or their list form *)
+(* FOR ALL strings: whatever the validators let through to exec IS in the grammar (both generated regexes end in \Z):
+   the type name is a slash-separated sequence of ASCII identifiers, every field name an ASCII identifier that does
+   not start with an underscore (and is not reserved), every field type a whitelist entry or its list form *)
+Theorem C06_generated_regexes_end_in_Z : ends_Z facts = true.
+Proof. vm_compute. reflexivity. Qed.
+
 Theorem C06_validators_exact : forall name d,
   validators_pass facts name d = true ->
-  slack type_name_grammar name
-  /\ Forall (fun f => slack ident_no_underscore f /\ mem f (reserved_names facts) = false) (map snd d)
+  type_name_grammar name = true
+  /\ Forall (fun f => ident_no_underscore f = true /\ mem f (reserved_names facts) = false) (map snd d)
   /\ Forall (fun t => whitelisted_opt_list (nf_whitelist facts) t = true) (map fst d).
-Proof. exact (validators_exact facts C06_generated_facts_ok). Qed.
+Proof. exact (validators_exact_strict facts C06_generated_facts_ok C06_generated_regexes_end_in_Z). Qed.
 
 (* and nothing in the grammar is refused by the validators *)
 Theorem C06_validators_complete : forall name d,
@@ -54,16 +57,46 @@ Theorem C06_validators_complete : forall name d,
   validators_pass facts name d = true.
 Proof. exact (validators_complete facts C06_generated_facts_ok). Qed.
 
-(* "validators_pass -> grammar" without the newline disjunct is FALSE of the code while the regexes end in "$":
-   witnesses (the check hands every such name to the real constructor, which must raise) *)
-Theorem C06_refuted_validators_strict :
-  match re_end (nf_type_re facts), re_end (nf_field_re facts) with
-  | EndDollar, EndDollar =>
-      validators_pass facts (s2n "a" ++ [NL]) [(s2n "string", s2n "x")] && negb (type_name_grammar (s2n "a" ++ [NL]))
-      && validators_pass facts (s2n "a") [(s2n "string", s2n "x" ++ [NL])] && negb (ident_no_underscore (s2n "x" ++ [NL]))
-  | _, _ => true
-  end = true.
+(* validators = grammar *)
+Theorem C06_validators_iff : forall name d,
+  validators_pass facts name d = true <->
+  (type_name_grammar name = true
+   /\ Forall (fun f => ident_no_underscore f = true) (map snd d)
+   /\ Forall (fun t => whitelisted_opt_list (nf_whitelist facts) t = true) (map fst d)).
+Proof. exact (validators_iff facts C06_generated_facts_ok C06_generated_regexes_end_in_Z). Qed.
+
+(* The same code with patterns that end in "$" (as before commit b422385) does NOT have this property: a name of the
+   grammar plus one trailing newline passes the validators ... *)
+Theorem C06_prefix_refuted_dollar :
+  let F := with_end EndDollar facts in
+  validators_pass F (s2n "a" ++ [NL]) [(s2n "string", s2n "x")] = true /\ type_name_grammar (s2n "a" ++ [NL]) = false
+  /\ validators_pass F (s2n "a") [(s2n "string", s2n "x" ++ [NL])] = true /\ ident_no_underscore (s2n "x" ++ [NL]) = false.
+Proof. vm_compute. repeat split. Qed.
+
+Theorem C06_dollar_facts_ok : facts_ok (with_end EndDollar facts) = true.
 Proof. vm_compute. reflexivity. Qed.
+
+(* ... and that is the whole slack of "$": the grammar, or the grammar plus exactly one trailing newline *)
+Theorem C06_dollar_slack : forall name d,
+  validators_pass (with_end EndDollar facts) name d = true ->
+  slack type_name_grammar name
+  /\ Forall (fun f => slack ident_no_underscore f /\ mem f (reserved_names facts) = false) (map snd d)
+  /\ Forall (fun t => whitelisted_opt_list (nf_whitelist facts) t = true) (map fst d).
+Proof. exact (validators_exact (with_end EndDollar facts) C06_dollar_facts_ok). Qed.
+
+(* names that arrive as bytes (constructor arguments, msgpack bin values in a descriptor frame) are decoded before they
+   are validated; for a decoder that keeps ASCII and maps anything else to text with a non-ASCII code point
+   (utf-8 + surrogateescape: the generated fact nf_to_str_surrogateescape, part of C06_routes_guarded) a byte string is
+   accepted only if it is already the ASCII spelling of an acceptable name -- no byte is dropped on the way *)
+Theorem C06_bytes_names_validated : forall (dec : list N -> str),
+  (forall b, forallb is_ascii b = true -> dec b = b) ->
+  (forall b, forallb is_ascii b = false -> forallb is_ascii (dec b) = false) ->
+  (forall b, type_name_grammar (dec b) = true -> dec b = b /\ type_name_grammar b = true)
+  /\ (forall b, ident_no_underscore (dec b) = true -> dec b = b /\ ident_no_underscore b = true).
+Proof.
+  exact (fun dec H1 H2 => conj (decoded_name_valid dec H1 H2 type_name_grammar type_name_ascii)
+                               (decoded_name_valid dec H1 H2 ident_no_underscore ident_ascii)).
+Qed.
 
 (* a field type is resolved (importlib / getattr) only as a whitelist entry; the requested type is that entry or the
    entry followed by "[]" *)
